@@ -97,7 +97,7 @@ func wrapRunner(item int) randomness.TestFunc {
 		if sp := st.cfg.Runners; st.sim && sp.SlowEvery > 0 {
 			st.mu.Lock()
 			st.ncalls++
-			slow := st.ncalls%sp.SlowEvery == 0
+			slow := st.ncalls%sp.SlowEvery == 0 && st.ncalls/sp.SlowEvery <= 60
 			st.mu.Unlock()
 			if slow {
 				// a test that takes long (a loaded machine, a big sample)
